@@ -180,6 +180,9 @@ pub struct Series {
     pub in2: i64,
     pub out1: i64,
     pub out2: i64,
+    pub s3: i64,
+    pub in3: i64,
+    pub out3: i64,
 }
 
 pub fn parse_series(text: &str) -> Series {
@@ -211,6 +214,9 @@ pub fn parse_series(text: &str) -> Series {
         in2: get("inbound_traffic_bytes", Some("http2")),
         out1: get("outbound_traffic_bytes", Some("http1")),
         out2: get("outbound_traffic_bytes", Some("http2")),
+        s3: get("client_sessions", Some("http3")),
+        in3: get("inbound_traffic_bytes", Some("http3")),
+        out3: get("outbound_traffic_bytes", Some("http3")),
     }
 }
 
@@ -218,7 +224,9 @@ pub fn parse_series(text: &str) -> Series {
 /// property does not fix the orientation)
 pub fn fmt_series(s: &Series, up_is_outbound: bool) -> String {
     let (u1, u2, d1, d2) = if up_is_outbound { (s.out1, s.out2, s.in1, s.in2) } else { (s.in1, s.in2, s.out1, s.out2) };
-    format!("s{}/{} t{} u{} up{}/{} dn{}/{}", s.s1, s.s2, s.tcp, s.udp, u1, u2, d1, d2)
+    // the third value of each triple is the HTTP/3 series (these histories open no HTTP/3 session: suite c16h3 does)
+    let (u3, d3) = if up_is_outbound { (s.out3, s.in3) } else { (s.in3, s.out3) };
+    format!("s{}/{}/{} t{} u{} up{}/{}/{} dn{}/{}/{}", s.s1, s.s2, s.s3, s.tcp, s.udp, u1, u2, u3, d1, d2, d3)
 }
 
 struct Hist<'a> {
@@ -772,9 +780,9 @@ pub fn run(ctx: &mut Ctx) {
         Ok(out) => {
             ctx.notes.push(format!("calibration: {}", out));
             let last = out.rsplit(" | ").next().unwrap_or("").to_string();
-            if last.contains("up0/3 dn0/5") {
+            if last.contains("up0/3/0 dn0/5/0") {
                 true
-            } else if last.contains("up0/5 dn0/3") {
+            } else if last.contains("up0/5/0 dn0/3/0") {
                 false
             } else {
                 ctx.oracle_failure("calibration", &format!("3 bytes up and 5 bytes down on one HTTP/2 tunnel gave: {}", out));
